@@ -392,8 +392,8 @@ real :: y
 y = 2.0 * y
 end subroutine Inner_P
 end subroutine Sub_A
-function Fn_B(k)
-integer :: k, Fn_B
+integer function Fn_B(k)
+integer :: k
 Fn_B = k + nVal
 end function Fn_B
 end module Mixed_Mod
